@@ -58,11 +58,13 @@ def cases(tier, seed):
     for o in objs:
         for k in range(1, depth + 1):
             for seq in itertools.product(range(len(menu)), repeat=k):
-                for tagged in (False, True):
+                # every pattern of tagged / untagged options within one sequence (an untagged option after a tagged one
+                # must still act on everything)
+                for tagged in itertools.product((False, True), repeat=k):
                     for keys in ('asc', 'desc'):
                         if k == 1 and keys == 'desc':
                             continue
-                        yield dict(kind='xform', obj=o, seq=[menu[i] for i in seq], tagged=tagged, keys=keys)
+                        yield dict(kind='xform', obj=o, seq=[menu[i] for i in seq], tagged=list(tagged), keys=keys)
 
 
 def seg_arrays(g):
@@ -226,31 +228,34 @@ def evaluate(c):
         if c['keys'] == 'desc':
             keys = keys[::-1]
         tr = []
-        for (kind, val), key in zip(seq, keys):
+        tg = c['tagged'] if isinstance(c['tagged'], list) else [c['tagged']] * len(seq)
+        for (kind, val), key, tgd in zip(seq, keys, tg):
             if kind == 'scale':
-                tr.append(['scale', val] + ([2] if c['tagged'] else []))
+                tr.append(['scale', val] + ([2] if tgd else []))
             else:
-                tr.append([kind, float(key), val] + ([2] if c['tagged'] else []))
+                tr.append([kind, float(key), val] + ([2] if tgd else []))
         ma, d0 = cli.build_main(cli.argv(base, ['--excitation-pulse=1']))
         mb, d1 = cli.build_main(cli.argv(dict(base, transforms=tr), ['--excitation-pulse=1']))
         if ma is None or mb is None:
             viol.append(('XFORM-REJECTED', '%s / %s' % (d0, d1)))
         else:
-            # harness composition in key order, scaling last
-            R, t, s = np.eye(3), np.zeros(3), 1.0
-            for (kind, val), key in sorted(zip(seq, keys), key=lambda x: x[1]):
-                if kind == 'rotate':
-                    Rm = geom.rotmat(val)
-                    R, t = Rm @ R, Rm @ t
-                elif kind == 'translate':
-                    t = t + np.array(val)
-            for kind, val in seq:
-                if kind == 'scale':
-                    s *= val
             for gi, (ga, gb) in enumerate(zip(ma.geo, mb.geo)):
+                # harness composition per object: the options that apply to it (untagged ones, and tagged ones on
+                # object 2), rotations / translations in key order, scaling last
+                R, t, s = np.eye(3), np.zeros(3), 1.0
+                mine = [(kv, key) for kv, key, tgd in zip(seq, keys, tg) if gi == 1 or not tgd]
+                for (kind, val), key in sorted(mine, key=lambda x: x[1]):
+                    if kind == 'rotate':
+                        Rm = geom.rotmat(val)
+                        R, t = Rm @ R, Rm @ t
+                    elif kind == 'translate':
+                        t = t + np.array(val)
+                for (kind, val), key in mine:
+                    if kind == 'scale':
+                        s *= val
                 A1, A2 = seg_arrays(ga)
                 B1, B2 = seg_arrays(gb)
-                moved = (gi == 1) or not c['tagged']
+                moved = bool(mine)
                 if moved:
                     E1, E2 = s * (A1 @ R.T + t), s * (A2 @ R.T + t)
                     er = ga.r * s
